@@ -27,3 +27,16 @@ Theorem C08_block2 `{Sig} : forall st cs st', seq_force st cs = Some st' ->
   step2 None st (Block cs) = (ROk 0, st').
 Proof. exact compose2. Qed.
 Print Assumptions C08_block2.
+
+(** Kernels: none of them reads outside its transaction (this is what the fix of the
+    non-transactional [is_free] in cell_insertion/vertices.rs restored), hence a block
+    mixing core calls and kernels equals the one-after-the-other execution. *)
+From HC Require Import Map2.Orbit2 Map2.Kern2 Map2.KOps2 Map2.KTx2Proofs.
+Theorem C08_kernels_no_atomic `{Sig} : forall n ks k, no_atomic (kcall_prog n ks k).
+Proof. exact na_kcall. Qed.
+Print Assumptions C08_kernels_no_atomic.
+
+Theorem C08_kblock `{Sig} : forall st bs st', seq_items st bs = Some st' ->
+  stepk None st (KBlock bs) = (ROk 0, st').
+Proof. exact compose_kblock. Qed.
+Print Assumptions C08_kblock.
